@@ -50,24 +50,27 @@ def _subs(tier):
             pre = ['t0 <= t1'] if fail else []
             out.append({'name': f'outputpart-n{n}-{"fail" if fail else "nofail"}',
                         'shape': {'kind': 'output', 'n': n, 'fail': fail, 'cap': 2 if n == 0 else None}, 'params': params, 'pre': pre})
+    # several sensors - two of them with the same name - on one Cms, one sensor on two Cms
+    out.append({'name': 'cms-two-sensors-sharing-a-name-and-two-cms', 'shape': {'kind': 'cms'},
+                'params': [['iv', 1, T], ['H', 0, 10 * T]], 'pre': ['H <= 2 * iv']})
     return out
 
 
 def jobs(tier):
     return pack(_subs(tier), 32 if tier == 'quick' else 64, lambda s: 1.0, 'c19-', weights='distinct',
-                timeout=170 if tier == 'quick' else 300)
+                timeout=240 if tier == 'quick' else 300)
 
 
 def bounds_text(tier):
     return ('periodic sensor: interval symbolic >= 1, data capacity in {1,2,' + ('' if tier == 'quick' else '3,') + 'unbounded}, 1-2 attribute probes (an int and a '
             'list attribute) changed by an event of low/high priority at a symbolic instant, horizon symbolic <= (c+2) intervals, two '
-            'on-sense callbacks, Cms.add_sensor called twice; output-part sensor: sensing interval n in {0,1' + ('' if tier == 'quick' else ',2') + '} on the '
+            'on-sense callbacks, Cms.add_sensor called twice; three periodic sensors (two sharing a name) on one Cms, one of them also on a second Cms; output-part sensor: sensing interval n in {0,1' + ('' if tier == 'quick' else ',2') + '} on the '
             'processor of Source -> P -> Sink with 2n+3 parts, symbolic cycle time, optional failure and restore at symbolic instants')
 
 
 def required_goals(tier):
     return ['series_trimmed', 'attribute_changed_between_measurements', 'change_at_measurement_instant', 'cms_received',
-            'add_sensor_again_during_run',
+            'add_sensor_again_during_run', 'cms_received_from_sensors_sharing_a_name', 'sensor_on_two_cms',
             'part_skipped', 'part_measured_after_failure']
 
 
@@ -78,6 +81,8 @@ def signature(f):
 def run(shape, args, ctx):
     if shape['kind'] == 'periodic':
         _periodic(shape, args, ctx)
+    elif shape['kind'] == 'cms':
+        _cms(shape, args, ctx)
     else:
         _output(shape, args, ctx)
 
@@ -178,6 +183,46 @@ def _periodic(shape, args, ctx):
     system.simulate(args['H'], print_summary=False)
     with ctx.notrace():
         ctx.require((st['n'] + 1) * ziv > z(env.now), 'a measurement is overdue at the end of the run')
+
+
+def _cms(shape, args, ctx):
+    """Two periodic sensors that share a name and a third one, all registered with one Cms; the third also with a second
+    Cms: each Cms receives every measurement of each of *its* sensors exactly once, with that sensor, the time and the values."""
+    z = ctx.z
+    system = System()
+    env = system.env
+    tgt = Target()
+    tgt.x = 7
+    s1 = PeriodicSensor(args['iv'], [AttributeProbe('x', tgt)], name='temperature')
+    s2 = PeriodicSensor(2 * args['iv'], [AttributeProbe('x', tgt)], name='temperature')
+    s3 = PeriodicSensor(args['iv'], [AttributeProbe('x', tgt)], name='other')
+    made = {id(s): [] for s in (s1, s2, s3)}
+    for s in (s1, s2, s3):
+        s.add_on_sense_callback(lambda sn, t, d: made[id(sn)].append((z(t), list(d))))
+    log_a, log_b = [], []
+    cms_a, cms_b = LogCms(log_a), LogCms(log_b)
+    for s in (s1, s2, s3, s2):
+        cms_a.add_sensor(s)
+    cms_b.add_sensor(s3)
+    real_step = env.step
+
+    def step():
+        with ctx.notrace():
+            ctx.count('events')
+        real_step()
+        with ctx.notrace():
+            for log, sensors, nm in ((log_a, (s1, s2, s3), 'first'), (log_b, (s3,), 'second')):
+                for s in sensors:
+                    got = [(z(t), d) for (sn, t, d) in log if sn is s]
+                    ctx.require(len(got) == len(made[id(s)]), 'Cms did not receive each measurement of a registered sensor exactly once',
+                                f'{nm} Cms: {len(got)} of {len(made[id(s)])} measurements of sensor {s.name!r} (id {s.id})')
+                    if got:
+                        ctx.goal('cms_received_from_sensors_sharing_a_name' if s is s2 else 'cms_received')
+                ctx.require(len(log) == sum(len(made[id(s)]) for s in sensors), 'Cms received a measurement of a sensor it does not monitor')
+            if log_b:
+                ctx.goal('sensor_on_two_cms')
+    env.step = step
+    system.simulate(args['H'], print_summary=False)
 
 
 def _output(shape, args, ctx):
